@@ -50,6 +50,24 @@ static void prop(Tape &t, Ctx &c) {
         cc.entropy_stream = 1; sc.entropy_stream = 2; cc.client_auth = sc.client_auth = cauth; sc.cert_cb = cb_strict; cc.sid = s; cc.tickets = tickets; return p.s.open(sc) >= 0 && p.c.open(cc) >= 0; };
     if (resumed || (vclient && (cfgb & 64))) { if (matrixSslNewSessionId(&sid, NULL) < 0) throw Discard{}; }   // (cfgb&64): client victim holds a sid so that NewSessionTicket storage paths run
     if (resumed) { Pair p0; if (!mk(p0, sid) || !p0.run(60)) throw Discard{}; }
+    // ticket history (TLS <= 1.2 client victims that keep a session id structure): earlier connections in which the server's plaintext
+    // NewSessionTicket was re-issued with another length (a middlebox edit: that handshake then fails at Finished, but the client has
+    // stored the ticket by then) - the stored ticket is replaced by shorter / longer / empty / oversized ones before the fuzzed session
+    if (!dt && vclient && tickets && sid && ver != TLS13 && (cfgb & 128)) {
+        int rounds = 1 + (sb & 1);
+        for (int r = 0; r < rounds; r++) {
+            Pair ph; if (!mk(ph, sid)) break;
+            static const int NL[] = { 0, 1, 47, 80, 127, 129, 168, 300, 4000, 15361, 16000 }; size_t nl = (size_t) NL[(sb / 2 + r * 5) % 11];
+            ph.mitm = [&](int dir, Bytes &d) { if (dir != 1) return; Bytes out; size_t last = 0; bool done = false;
+                for (auto &rec : parse_records(d, false)) { size_t b = rec.off + rec.hdr; if (done || rec.type != 22 || rec.len < 10 || d[b] != 4) continue;
+                    size_t have = rec.len - 10; Bytes body(d.begin() + b + 4, d.begin() + b + 8); body.push_back((uint8_t) (nl >> 8)); body.push_back((uint8_t) nl); for (size_t i = 0; i < nl; i++) body.push_back(i < have ? d[b + 10 + i] : (uint8_t) (0xA0 + i % 7));
+                    size_t hl = body.size(), rl = hl + 4; out.insert(out.end(), d.begin() + last, d.begin() + rec.off); Bytes nu = { 22, d[rec.off + 1], d[rec.off + 2], (uint8_t) (rl >> 8), (uint8_t) rl, 4, (uint8_t) (hl >> 16), (uint8_t) (hl >> 8), (uint8_t) hl }; nu.insert(nu.end(), body.begin(), body.end());
+                    out.insert(out.end(), nu.begin(), nu.end()); last = rec.off + rec.hdr + rec.len; done = true; }
+                if (done) { out.insert(out.end(), d.begin() + last, d.end()); d.swap(out); c.count("history:nst-reissued-with-other-length"); } };
+            ph.run(60);
+            check_bufs(ph.c, desc);
+        }
+    }
     Pair p; if (!mk(p, sid)) throw Discard{};
     Endpoint &V = vclient ? p.c : p.s, &P = vclient ? p.s : p.c;
 
@@ -85,7 +103,18 @@ static void prop(Tape &t, Ctx &c) {
             case 10: { // hello-aware: session-id length / following vector lengths of a ClientHello/ServerHello in this unit
                 size_t hb = (dt ? 13 + 12 : 5 + 4); if (u.size() > hb + 35 && u[0] == 22 && (u[dt ? 13 : 5] == 1 || u[dt ? 13 : 5] == 2)) { size_t sidoff = hb + 34; uint8_t v = t.u8(); if (kind & 0x80) { size_t rem = u.size() - sidoff - 1; /* lengths just past the 32-byte maximum that still fit into the message are the interesting ones */ switch (v & 3) { case 0: v = 33; break; case 1: v = (uint8_t) (33 + (v >> 2) % 32); break; case 2: v = (uint8_t) std::min<size_t>(rem, 255); break; default: break; } u[sidoff] = v; } else { size_t o2 = sidoff + 1 + u[sidoff]; if (o2 + 1 < u.size()) { u[o2] = v; u[o2 + 1] = t.u8(); } } } break; }
             case 11: { // first bytes of the handshake body (vector length prefixes of Certificate, KeyExchange, CertificateRequest, NewSessionTicket...)
-                size_t hb = (dt ? 13 + 12 : 5 + 4); if (u.size() > hb + 8 && u[0] == 22) { size_t k = t.u8() % 8; u[hb + k] = t.u8(); } break; }
+                size_t hb = (dt ? 13 + 12 : 5 + 4);
+                if (!dt && (kind & 0x40) && u.size() >= hb + 6 && u[0] == 22 && u[5] == 4) {
+                    // NewSessionTicket (TLS <= 1.2, plaintext): re-issue the ticket with a different length, all length fields consistent - the
+                    // client's stored ticket is replaced by a shorter / longer / empty / very large one (the handshake fails later at Finished,
+                    // the ticket has been stored by then)
+                    size_t have = u.size() - hb - 6; static const int NL[] = { 0, 1, 47, 80, 127, 129, 168, 300, 4000, 15361, 16000 }; size_t nl = (size_t) NL[t.u8() % 11]; if (nl == have) nl = have / 2;
+                    Bytes body(u.begin() + hb, u.begin() + hb + 4); body.push_back((uint8_t) (nl >> 8)); body.push_back((uint8_t) nl); for (size_t i = 0; i < nl; i++) body.push_back(i < have ? u[hb + 6 + i] : (uint8_t) (0xA0 + i % 7));
+                    size_t hl = body.size(), rl = hl + 4; Bytes nu = { 22, u[1], u[2], (uint8_t) (rl >> 8), (uint8_t) rl, 4, (uint8_t) (hl >> 16), (uint8_t) (hl >> 8), (uint8_t) hl }; nu.insert(nu.end(), body.begin(), body.end());
+                    if (rl <= 16384) { u.swap(nu); c.count("nst-reissued-with-other-length"); }
+                    break;
+                }
+                if (u.size() > hb + 8 && u[0] == 22) { size_t k = t.u8() % 8; u[hb + k] = t.u8(); } break; }
             }
             deliver(u);
             if (t.u8() & 1 && !pending.empty()) { /* also deliver the original afterwards */ }
